@@ -1205,10 +1205,12 @@ class DigitalWaveform(Generic[TDigitalState]):
             array = array.copy()
 
         self._increase_capacity(len(array))
-        self._set_timing(new_timing)
 
+        # Write the samples first: if the buffer rejects the write (read-only memory), the timing
+        # and the sample count must still be the old ones.
         offset = self._start_index + self._sample_count
         self._data[offset : offset + len(array)] = array
+        self._set_timing(new_timing)
         self._sample_count += len(array)
 
     def _append_waveform(self, waveform: DigitalWaveform[TDigitalState]) -> None:
@@ -1239,12 +1241,16 @@ class DigitalWaveform(Generic[TDigitalState]):
         ]
 
         self._increase_capacity(sum(len(chunk) for chunk in chunks))
-        self._set_timing(new_timing)
 
+        # Write the samples first: if the buffer rejects the write (read-only memory), the timing,
+        # the sample count and the extended properties must still be the old ones.
         offset = self._start_index + self._sample_count
-        for waveform, chunk in zip(waveforms, chunks):
+        for chunk in chunks:
             self._data[offset : offset + len(chunk)] = chunk
             offset += len(chunk)
+
+        self._set_timing(new_timing)
+        for waveform, chunk in zip(waveforms, chunks):
             self._sample_count += len(chunk)
             self._extended_properties._merge(waveform._extended_properties)
 
